@@ -1027,26 +1027,30 @@ def search(ctx, pending):
     0/1 matrices, weighted and square ones, all entries and seed placements (the entries named by the broken tie
     first), the structure functions and the routing lines. Failures that only re-find a recorded known finding are
     dropped BEFORE the list is cut."""
+    findings = load_findings()
+    have = [f for f in ctx.spec_failures if match_finding(findings, ctx.prop, f['sig']) is None]
+    if have:
+        # the run itself already holds concrete failing inputs of the property that no recorded finding explains
+        return [{'sig': f['sig'], 'case': f['case'], 'detail': f['detail']} for f in have[:3]]
     sub = Sub(ctx)
     ents = {str((p[1] or {}).get('entry', '')) for p in pending}
     seeded = {e.name for e in _table() if e.kind is not None}
     cheap = {e.name for e in _table()} - {'KCenters'}
     only, seeds_per, routing = cheap, 2, True
     if ents and ents <= {'get_values', 'stack_values', 'get_adjacency_values'}:
-        only, seeds_per, routing = seeded, 4, False                 # a seed-plumbing function moved: hunt with seeds
+        only, seeds_per, routing = seeded, 3, False                 # a seed-plumbing function moved: hunt with seeds
     elif ents and ents <= {'get_distances', 'get_shortest_path'}:
         only, seeds_per = {'DiffusionClassifier'}, 3               # the routing moved (DiffusionClassifier calls get_distances)
     elif ents and all(x.endswith('._split_vars') or x in ('bipartite2undirected', 'bipartite2directed', 'get_adjacency')
                       for x in ents):
         only, seeds_per, routing = cheap | {'KCenters'}, 1, False   # the block or the split moved: every entry, few seeds
-    mats = _matrices(ctx, False, exhaustive_shapes=[(1, 2), (2, 1), (2, 2)], n_random=16)
+    mats = _matrices(ctx, False, exhaustive_shapes=[(1, 2), (2, 1), (2, 2)], n_random=8)
     more = [es for es in graphs.all_bipartite(2, 3) if es]
-    mats += [(graphs.csr_from_edges(2, es, m=3).toarray(), 'csr') for es in ctx.rng.sample(more, 12)]
+    mats += [(graphs.csr_from_edges(2, es, m=3).toarray(), 'csr') for es in ctx.rng.sample(more, 6)]
     relation_cases(ctx, mats, seeds_per=seeds_per, sub=sub, only=only)
     structure_cases(ctx, mats, sub=sub)
     if routing:
         routing_cases(ctx, True, sub=sub)
-    findings = load_findings()
     fresh = [f for f in sub.spec_failures if match_finding(findings, ctx.prop, f['sig']) is None]
     # one representative per (entry, output, reason), entries named by the pending disagreements first
     seen, out = set(), []
